@@ -4,7 +4,7 @@
                    M<k> file k absent (its directory exists)      N<k> absent, directory missing
                    T<k>:<n> file k truncated to n bytes           E<k>:<n> file k extended by n bytes 0xa5
                    U<k>:<c> file k cannot be opened (errno other than ENOENT; c = l|d|n is how the
-                            harness produces it)                  B<i> the torrent's hash of piece i is wrong
+                            harness produces it)                  B<i>[:<k>] the torrent's hash of piece i is wrong (in byte k)
    ops:            O open   C hash_check(false)   Q hash_check(true)   D<i> piece i's digest is delivered
                    S hash_stop   X close   K scheduler tick   W let every queued piece finish
    Output: one snapshot per op joined by ';', then ' # ' and one token per file (final disk).
@@ -65,7 +65,7 @@ let () = each_line (fun line ->
          | [a; b] -> (int_of_string a, b) | _ -> failwith "pert" in
        List.iter (fun t -> match t.[0] with
            | 'F' -> let g = num t in if g < total then content.(g) <- content.(g) lxor 0x5a
-           | 'B' -> let i = num t in if i < npieces then bad.(i) <- true
+           | 'B' -> let i = (if String.contains t ':' then fst (num2 t) else num t) in if i < npieces then bad.(i) <- true
            | _ -> ()) pt;
        let offs = Array.make (List.length files + 1) 0 in
        List.iteri (fun k (l, _) -> offs.(k + 1) <- offs.(k) + l) files;
@@ -92,11 +92,12 @@ let () = each_line (fun line ->
        let s = ref (init fs) in
        let outs = List.map (fun t ->
            let o = match t.[0] with
-             | 'O' -> OOpen | 'C' -> OCheck false | 'Q' -> OCheck true | 'S' -> OStop | 'X' -> OClose
-             | 'K' -> OTick | 'W' -> ORunAll | 'D' -> ODeliver (nat_of_int (num t))
+             | 'O' -> OOpen | 'C' -> OCheck false | 'Q' -> OCheck true | 'S' | 's' -> OStop | 'X' | 'x' -> OClose
+             | 'K' -> OTick | 'W' | 'w' -> ORunAll | 'D' -> ODeliver (nat_of_int (num t))
              | _ -> failwith "op" in
            s := step hfun pln expected !s o;
            snapshot !s) (split_ws ops) in
+       if !s.s_ierr then "ERR:internal" else
        String.concat ";" outs ^ " # " ^ String.concat " " (List.map disk_token !s.s_files)
        ^ (if !s.s_ierr then " ierr=1" else " ierr=0")
      | _ -> "BADCASE")
